@@ -69,7 +69,16 @@ def tagged_cases(draw) -> t.Any:
     spec = ('tagged', layout, tag, tuple(variants))
     nd = cg.TaggedNode(spec)
     v = draw(nd.valid())
-    mode = draw(st.sampled_from(['valid', 'badtag', 'valid', 'mutate', 'shape', 'cross-body']))
+    mode = draw(st.sampled_from(['valid', 'badtag', 'valid', 'mutate', 'shape', 'cross-body', 'inserting-mapping']))
+    if mode == 'inserting-mapping' and isinstance(v, dict):
+        # a defaultdict (its __getitem__ inserts missing keys), often with one expected key renamed away
+        import collections
+        items = list(v.items())
+        if items and draw(st.booleans()):
+            j = draw(st.integers(0, len(items) - 1))
+            items[j] = (draw(st.sampled_from(['other', 'zz'])), items[j][1])
+        v = collections.defaultdict(draw(st.sampled_from([list, int, dict])), items)
+        return [spec, v, mode]
     if mode == 'badtag' and isinstance(v, dict):
         bad = draw(st.sampled_from(['omega', 99, None, 1.5, True, [1], {'a': 1}, '', 0, (1,), b'alpha']))
         sp = nd.split(v)
